@@ -188,7 +188,7 @@ class kLeastAbsErrors(pathmodel.AbstractPathModelDAG):
         
         # Checking that every entry in self.error_scaling is between 0 and 1
         for key, value in error_scaling.items():
-            if value < 0 or value > 1:
+            if not (0 <= value <= 1):     # (written so that NaN is rejected too)
                 utils.logger.error(f"{__name__}: Error scaling factor for {key} must be between 0 and 1.")
                 raise ValueError(f"Error scaling factor for {key} must be between 0 and 1.")
 
